@@ -236,7 +236,7 @@ def rand_value(rng, depth=0):
     if depth >= 2 or r < 0.3:
         return {'k': 'int', 'i': rng.randint(0, 5)}
     if r < 0.6:
-        keys = rng.sample(['a', 'b', '*', '0'], rng.randint(0, 3))
+        keys = rng.sample(['a', 'b', '*', '0', 'opts'], rng.randint(0, 3))
         return {'k': 'dict', 'v': [[{'k': 'str', 's': k}, rand_value(rng, depth + 1)] for k in keys]}
     if r < 0.8:
         return {'k': 'list', 'v': [rand_value(rng, depth + 1) for _ in range(rng.randint(0, 3))]}
@@ -270,13 +270,18 @@ def rand_spec(rng, depth, sids, last=True, nest=0):
     if r < 0.72:
         return {'op': 'each', 'sp': rng.choice(['list', 'iter']), 'c': rand_spec(rng, depth - 1, sids, nest=nest)}
     if r < 0.82:
-        d = rng.choice([{'has': False, 'v': {'k': 'none'}}, {'has': True, 'v': {'k': 'list', 'v': []}},
-                        {'has': True, 'v': {'k': 'int', 'i': 0}}, {'has': True, 'v': {'k': 'none'}}])
+        d = rng.choice([{'has': False, 'v': {'k': 'none'}, 's': []}, {'has': True, 'v': {'k': 'list', 'v': []}, 's': []},
+                        {'has': True, 'v': {'k': 'int', 'i': 0}, 's': []}, {'has': True, 'v': {'k': 'none'}, 's': []},
+                        {'has': True, 'v': {'k': 'none'}, 's': [rand_arglist(rng, sids, nest)]},
+                        {'has': True, 'v': {'k': 'none'}, 's': [rand_arglist(rng, sids, nest)]}])
         return {'op': 'coal', 'c': [rand_spec(rng, depth - 1, sids, nest=nest) for _ in range(rng.randint(1, 3))], 'd': d}
     if r < 0.88:
         return {'op': 'bind', 'name': rng.choice(B.NAME_ORDER), 'c': rand_spec(rng, depth - 1, sids, nest=nest)}
-    if r < 0.92:
+    if r < 0.905:
         return {'op': 'acc', 'kind': 'fold', 'f': rng.choice(['id', 'inc', 'inc', 'boom'])}
+    if r < 0.93:
+        return {'op': 'invoke', 'c': rng.choice([{'op': 'path', 'text': 'opts', 'segs': ['opts']}, rand_path(rng)]),
+                'k': rng.choice(['k', 'a', 'z']), 'v': {'k': 'int', 'i': rng.randint(0, 9)}}
     if r < 0.96 and nest < 2:
         return {'op': 'nest', 'call': rand_call(rng, sids, depth - 1, nest + 1)}
     if not last:
@@ -284,6 +289,18 @@ def rand_spec(rng, depth, sids, last=True, nest=0):
     if rng.random() < 0.5:
         return {'op': 'acc', 'kind': 'group', 'f': rng.choice(['id', 'inc', 'inc', 'boom'])}
     return {'op': 'fill', 'c': rand_spec(rng, depth - 1, sids, nest=nest)}
+
+
+def rand_arglist(rng, sids, nest):
+    """a list argument whose elements are sub-specs that argument mode evaluates"""
+    def elem():
+        r = rng.random()
+        if r < 0.5:
+            return {'op': 'probe', 'f': rng.choice(['id', 'id', 'inc'])}
+        if r < 0.85 or nest >= 2:
+            return {'op': 'read', 'name': rng.choice(B.NAME_ORDER)}
+        return {'op': 'nest', 'call': rand_call(rng, sids, 1, nest + 1)}
+    return {'op': 'arglist', 'c': [elem() for _ in range(rng.randint(1, 3))]}
 
 
 def rand_call(rng, sids, depth=3, nest=0):
@@ -459,19 +476,24 @@ MUTANTS = {'nostarkey': 'NonInterference', 'noreset': 'NonInterference', 'accons
 def main(tier, seed):
     _assert_pristine()
     check = vlib.Check(PROP, tier, seed)
-    consts = {'quick': dict(PoolSize=7, MaxHist=3), 'thorough': dict(PoolSize=10, MaxHist=4)}[tier]
-    _CFG.update(maxhist=consts['MaxHist'], maxcache=1, rows_per_chunk=40)
-    res, results = map_dump('MC_C06', dict(consts, Mutant='""'), worker)
-    check.add_tlc(res, 'MC_C06 %s' % consts)
-    rows, drift = [], []
+    configs = {'quick': [dict(PoolSize=9, MaxHist=3, MaxToggles=2, MaxRegs=2)],
+               'thorough': [dict(PoolSize=13, MaxHist=3, MaxToggles=2, MaxRegs=2),
+                            dict(PoolSize=9, MaxHist=4, MaxToggles=1, MaxRegs=1)]}[tier]
+    rows, drift, results = [], [], []
+    for consts in configs:
+        _CFG.update(maxhist=consts['MaxHist'], maxcache=1, rows_per_chunk=40)
+        res, part = map_dump('MC_C06', dict(consts, Mutant='""'), worker)
+        check.add_tlc(res, 'MC_C06 %s' % consts)
+        results.extend(part)
+    consts = configs
     for r in results:
         check.cov['evaluations'] += r['n']
         check.cov['distinct_nontrivial'] += r['nontrivial']
         check.validated(r['hist'] - len({json.dumps(b['case']['actions']) for b in r['bad']}))
         rows.extend(r['rows'])
         drift.extend(r['drift'])
-        for s in r['samples']:
-            check.sample(s)
+        for s_ in r['samples']:
+            check.sample(s_)
         for b in r['bad']:
             check.violation(b['case'], b['why'], matcher=match_finding)
     nhist = sum(r['hist'] for r in results)
@@ -497,7 +519,7 @@ def main(tier, seed):
     check.extra['mechanism_drift'] = drift[:5]
     check.extra['mechanism_drift_count'] = len(drift)
     # vacuity: the same histories at the finest grain; every step kind and branch must occur
-    vres = vlib.run_tlc('MC_C06', cfg='MC_C06_fine', constants=dict(PoolSize=10, MaxHist=2, Mutant='""'), heap='6g')
+    vres = vlib.run_tlc('MC_C06', cfg='MC_C06_fine', constants=dict(PoolSize=13, MaxHist=2, MaxToggles=2, MaxRegs=2, Mutant='""'), heap='6g')
     vlib.tlc_must_pass(vres, 'MC_C06 fine-grained')
     check.add_tlc(vres, 'MC_C06 fine-grained (vacuity)')
     cov = B.mechanism_coverage([j['hist'] for j in vres['json'] if 'hist' in j])
@@ -516,16 +538,16 @@ def main(tier, seed):
         # spec mutants: the law must be violated
         mres = {}
         for m, law in MUTANTS.items():
-            r = vlib.run_tlc('MC_C06', cfg='MC_C06_mutant', constants=dict(PoolSize=10, MaxHist=3, Mutant='"%s"' % m))
+            r = vlib.run_tlc('MC_C06', cfg='MC_C06_mutant', constants=dict(PoolSize=13, MaxHist=3, MaxToggles=2, MaxRegs=2, Mutant='"%s"' % m))
             mres[m] = r['violated']
             if r['violated'] != law:
                 raise vlib.MachineryError('spec mutant %s: expected %s violated, TLC says %s' % (m, law, r['violated']))
-        r = vlib.run_tlc('MC_C06', cfg='MC_C06_mutant_frame', constants=dict(PoolSize=10, MaxHist=3, Mutant='"acconspec"'))
+        r = vlib.run_tlc('MC_C06', cfg='MC_C06_mutant_frame', constants=dict(PoolSize=13, MaxHist=3, MaxToggles=2, MaxRegs=2, Mutant='"acconspec"'))
         mres['acconspec/frame'] = r['violated']
         if r['violated'] != 'FrameCondition':
             raise vlib.MachineryError('spec mutant acconspec: FrameCondition not violated (%s)' % r['violated'])
         check.extra['spec_mutants_violate'] = mres
-    check.extra['constants'] = dict(consts, MaxCache=1, MaxToggles=2, MaxRegs=2)
+    check.extra['constants'] = dict(configs=configs, MaxCache=1)
     check.assumptions += [
         'PATH_STAR is toggled and register() is called only between calls (the property quantifies over histories)',
         'the warning about "*" when PATH_STAR is off is not part of the outcome (warnings filter is not "error")',
